@@ -33,6 +33,7 @@ def _keep_invalid_bytes_quoted(error):
 codecs.register_error("ural_keep_quoted", _keep_invalid_bytes_quoted)
 
 C1_CONTROL_CHARS_RE = re.compile("[\x80-\x9f]")
+WHITESPACE_CHAR_RE = re.compile(r"\s", re.UNICODE)
 
 
 def _quote_match(match):
@@ -98,7 +99,7 @@ def _generate_unquoted_parts(string, only_printable=False, unsafe=None):
 def unquote(string, only_printable=False, unsafe=None, normalize_space=False):
     if "%" not in string:
         if normalize_space:
-            return string.replace(" ", "%20")
+            return WHITESPACE_CHAR_RE.sub(_quote_match, string)
 
         return string
 
@@ -106,8 +107,10 @@ def unquote(string, only_printable=False, unsafe=None, normalize_space=False):
         _generate_unquoted_parts(string, only_printable=only_printable, unsafe=unsafe)
     )
 
+    # NOTE: any whitespace character, not only the ascii space, would be
+    # stripped if it ended up at either end of the url
     if normalize_space:
-        q = q.replace(" ", "%20")
+        q = WHITESPACE_CHAR_RE.sub(_quote_match, q)
 
     return q
 
